@@ -87,6 +87,11 @@ func helperFreshness(repo string) (map[string]bool, error) {
 		made, copied, okBody := false, false, true
 		ast.Inspect(fd.Body, func(n ast.Node) bool {
 			switch x := n.(type) {
+			case *ast.ReturnStmt:
+				// handing the argument itself back (`if len(h) == 0 { return h }`) shares an empty-but-allocated container
+				if len(x.Results) == 1 && isIdent(x.Results[0], arg) {
+					okBody = false
+				}
 			case *ast.AssignStmt:
 				if len(x.Lhs) == 1 && len(x.Rhs) == 1 {
 					if isIdent(x.Lhs[0], res) {
@@ -466,6 +471,9 @@ func syncCloneTable(repo string) (string, string, error) {
 	})
 	prologue, err := doPrologue(repo)
 	if err != nil {
+		return "", "", err
+	}
+	if err := setCookieJarShape(repo); err != nil {
 		return "", "", err
 	}
 	chClone, err := connectHeaderClone(repo)
@@ -1020,4 +1028,31 @@ func connectHeaderClone(repo string) (bool, error) {
 		return false, fmt.Errorf("transport.go: dialConn no longer sets Proxy-Authorization on hdr; Model/ConnectHdr.v must be revisited")
 	}
 	return cloned, nil
+}
+
+// setCookieJarShape: Client.SetCookieJar (client.go) must clear c.cookiejarFactory unconditionally (a top-level
+// statement): the model's SJarPlain / SJarNil switch the factory off whatever jar is given.
+func setCookieJarShape(repo string) error {
+	fs := token.NewFileSet()
+	f, err := parser.ParseFile(fs, filepath.Join(repo, "client.go"), nil, 0)
+	if err != nil {
+		return err
+	}
+	for _, d := range f.Decls {
+		fd, ok := d.(*ast.FuncDecl)
+		if !ok || fd.Name.Name != "SetCookieJar" || fd.Recv == nil || fd.Body == nil {
+			continue
+		}
+		for _, st := range fd.Body.List {
+			if as, ok := st.(*ast.AssignStmt); ok && len(as.Lhs) == 1 && len(as.Rhs) == 1 {
+				if sel, ok := as.Lhs[0].(*ast.SelectorExpr); ok && sel.Sel.Name == "cookiejarFactory" {
+					if id, ok := as.Rhs[0].(*ast.Ident); ok && id.Name == "nil" {
+						return nil
+					}
+				}
+			}
+		}
+		return fmt.Errorf("client.go: SetCookieJar no longer clears cookiejarFactory unconditionally; the jar setters of Model/Settings.v must be revisited")
+	}
+	return fmt.Errorf("client.go: Client.SetCookieJar not found")
 }
